@@ -113,3 +113,36 @@ pub fn ok_stream_last_guarded<D: GarnishData>(data: &mut D, root_start: D::Size,
     }
     Ok(())
 }
+
+/// a handler elsewhere records "the next instruction" as a jump-table entry; this root closer skips the end instruction
+/// without looking at the jump table
+pub fn ctl_join_ignored<D: GarnishData>(data: &mut D, ends: Vec<(Instruction, Option<D::Size>)>) -> Result<(), D::Error> {
+    let start = data.get_instruction_len();
+    let last = if data.get_instruction_len() > start { data.get_instruction_iter().last() } else { None };
+    for end in ends {
+        match last.clone().and_then(|i| data.get_instruction(i)) {
+            Some(i) if i == end => {}
+            _ => {
+                data.push_instruction(end.0, end.1)?;
+            }
+        }
+    }
+    Ok(())
+}
+
+pub fn ok_join_checked<D: GarnishData>(data: &mut D, first_entry: D::Size, ends: Vec<(Instruction, Option<D::Size>)>) -> Result<(), D::Error> {
+    use garnish_lang_traits::GarnishDataFactory;
+    let start = data.get_instruction_len();
+    let next = data.get_instruction_len();
+    let joined = D::DataFactory::make_size_iterator_range(first_entry, data.get_jump_table_len()).any(|j| data.get_from_jump_table(j) == Some(next.clone()));
+    let last = if data.get_instruction_len() > start && !joined { data.get_instruction_iter().last() } else { None };
+    for end in ends {
+        match last.clone().and_then(|i| data.get_instruction(i)) {
+            Some(i) if i == end => {}
+            _ => {
+                data.push_instruction(end.0, end.1)?;
+            }
+        }
+    }
+    Ok(())
+}
